@@ -76,7 +76,7 @@ def replay_one(item) -> dict:
         rows = len(scn["w"])
         aggs = other_aggregators(rows, torch.float64)
         agg = aggs[idx % len(aggs)]
-        run = BackwardRun(scn, rng, dtype=torch.float64, aggregator=agg)
+        run = BackwardRun(scn, rng, dtype=torch.float64, aggregator=agg, hook_scale=(2.0 if idx % 2 else None))
         stats["runs"] += 1
         if run.exc is not None:
             # the aggregator itself may reject a matrix (QP failure on a degenerate Jacobian, …):
